@@ -95,6 +95,11 @@ pub assume_specification<'b, T: ?Sized> [RefCell::<T>::borrow] (c: &'b RefCell<T
 pub assume_specification<'b, 'c, T: ?Sized> [<Ref<'b, T> as std::ops::Deref>::deref] (c: &'c Ref<'b, T>) -> (r: &'c T)
     ensures r == ref_val(c);
 
+// Ref::map: the projected guard shows what the projection returns for the guarded value (functional value only)
+pub assume_specification<'b, T: ?Sized, U: ?Sized, F: FnOnce(&T) -> &U> [Ref::<'b, T>::map::<U, F>] (orig: Ref<'b, T>, f: F) -> (r: Ref<'b, U>)
+    requires f.requires((ref_val(&orig),)),
+    ensures f.ensures((ref_val(&orig),), ref_val(&r));
+
 // ---- MaybeUninit
 pub uninterp spec fn mu_val<T>(m: MaybeUninit<T>) -> Option<T>;
 
